@@ -594,6 +594,15 @@ Proof.
   rewrite H2. reflexivity.
 Qed.
 
+Lemma log_tap_bind_pok {A B} p k rk (r : pr A) (g : A -> B) a L :
+  pres_is r a L -> log_paths (snd (ptap (p, k, rk) (pbind r (fun x => pok (g x))))) = (p, rk) :: L.
+Proof.
+  intros H.
+  destruct (pres_is_ptap p k rk _ _ _
+              (pres_is_pbind r (fun x => pok (g x)) a (g a) L [] (L ++ []) H eq_refl (pres_is_pok _))) as [_ H2].
+  rewrite H2, app_nil_r. reflexivity.
+Qed.
+
 Lemma pbind_pok {A B} (a : A) (k : A -> pr B) : pbind (pok a) k = k a.
 Proof. unfold pbind, pok. destruct (k a) as [x l]. reflexivity. Qed.
 
@@ -686,7 +695,7 @@ Ltac nil_crush :=
   repeat match goal with
          | |- snd (if ?c then _ else _) = [] => destruct c
          | |- snd (match ?x with _ => _ end) = [] => destruct x
-         | |- snd (pbind (plift _ ?r) _) = [] => destruct r
+         | |- snd (pbind (plift _ (set_scalar ?t ?tk)) _) = [] => destruct (set_scalar t tk)
          end; try reflexivity.
 
 Section PSteps.
@@ -710,7 +719,7 @@ Proof.
   apply andb_true_iff in Hk. destruct Hk as [Hk Harr]. apply negb_true_iff in Harr.
   apply andb_true_iff in Hk. destruct Hk as [Hlit Htn]. apply negb_true_iff in Hlit. apply negb_true_iff in Htn.
   unfold pbody. rewrite Htn. cbn [andb].
-  destruct (underlying t) eqn:Hut; try (exfalso; exact (Hnp _ Hut));
+  destruct (underlying t) eqn:Hut; try (exfalso; exact (Hnp _ eq_refl));
     try (destruct (kind tk =? KNil); [reflexivity|];
          destruct (is_end_kind (kind tk)); [reflexivity|];
          unfold pptr_or_dispatch, pdispatch; cbv beta iota zeta;
@@ -788,3 +797,383 @@ Lemma unmp_name f cur s rest p :
 Proof. pstep_rec f. reflexivity. Qed.
 
 End PSteps.
+
+(* ---- the loops on marshalled element streams ---- *)
+Section PLoops.
+Variable o : copts.
+Variable prec : prec_t.
+
+(* what the recursive call does on the stream of a typed element, under any context path *)
+Definition pelem_ok (x : gval) : Prop :=
+  forall ft a rest' p, wf_ty ft = true -> simple_ty ft = true -> noreg_ty ft = true ->
+    has_type ft x = true -> no_ptr_to_nil x = true -> marshal default_opts ft x = Ok a ->
+    pres_is (prec ft (zero ft) (a ++ rest') p) (normal ft x, rest') (upaths ft x p).
+
+Lemma pslice_loop_rt e p : wf_ty e = true -> simple_ty e = true -> noreg_ty e = true ->
+  forall l, Forall pelem_ok l -> all_typed e l = true -> forallb no_ptr_to_nil l = true ->
+  forall body, melems default_opts e l = Ok body ->
+  forall g acc rest, (length l < g)%nat ->
+  pres_is (pslice_loop prec p g e acc (body ++ T KArrayEnd VNone :: rest))
+          (acc ++ map (normal e) l, rest) (upl e p l (length acc)).
+Proof.
+  intros Hwf Hs Hnr. induction 1 as [|x l Hx _ IH]; intros Hty Hnp body Hm g acc rest Hg.
+  - injection Hm as <-. destruct g as [|g]; [clear - Hg; cbn in Hg; lia|]. cbn [app pslice_loop map kind].
+    rewrite app_nil_r. split; reflexivity.
+  - apply melems_cons_inv in Hm. destruct Hm as (a & b & Ha & Hb & ->).
+    change (all_typed e (x :: l)) with (has_type e x && all_typed e l) in Hty.
+    apply andb_true_iff in Hty. destruct Hty as [Htx Htl].
+    cbn [forallb] in Hnp. apply andb_true_iff in Hnp. destruct Hnp as [Hnx Hnl].
+    destruct (marshal_head _ _ _ _ Htx Hs Ha) as (tk & r & -> & Hh & _).
+    destruct g as [|g]; [clear - Hg; cbn [length] in Hg; lia|]. rewrite <- app_assoc. cbn [app pslice_loop].
+    rewrite (head_not_arrend tk Hh).
+    change (tk :: r ++ b ++ T KArrayEnd VNone :: rest) with ((tk :: r) ++ b ++ T KArrayEnd VNone :: rest).
+    rewrite upl_cons.
+    eapply pres_is_pbind; [apply (Hx e (tk :: r) _ _ Hwf Hs Hnr Htx Hnx Ha)|reflexivity|]. cbn [fst snd].
+    specialize (IH Htl Hnl b Hb g (acc ++ [normal e x]) rest ltac:(clear - Hg; cbn [length] in Hg; lia)).
+    rewrite <- app_assoc in IH. cbn [app] in IH.
+    replace (length (acc ++ [normal e x])) with (S (length acc)) in IH by (rewrite app_length; cbn [length]; clear; lia).
+    cbn [map]. exact IH.
+Qed.
+
+Lemma parr_loop_rt e p : wf_ty e = true -> simple_ty e = true -> noreg_ty e = true ->
+  forall l, Forall pelem_ok l -> all_typed e l = true -> forallb no_ptr_to_nil l = true ->
+  forall body, melems default_opts e l = Ok body ->
+  forall g done rest, (length l < g)%nat ->
+  pres_is (parr_loop prec p g e (done ++ repeat (zero e) (length l)) (length done) (body ++ T KArrayEnd VNone :: rest))
+          (done ++ map (normal e) l, rest) (upl e p l (length done)).
+Proof.
+  intros Hwf Hs Hnr. induction 1 as [|x l Hx _ IH]; intros Hty Hnp body Hm g done rest Hg.
+  - injection Hm as <-. destruct g as [|g]; [clear - Hg; cbn in Hg; lia|]. cbn [app parr_loop map kind length repeat].
+    split; reflexivity.
+  - apply melems_cons_inv in Hm. destruct Hm as (a & b & Ha & Hb & ->).
+    change (all_typed e (x :: l)) with (has_type e x && all_typed e l) in Hty.
+    apply andb_true_iff in Hty. destruct Hty as [Htx Htl].
+    cbn [forallb] in Hnp. apply andb_true_iff in Hnp. destruct Hnp as [Hnx Hnl].
+    destruct (marshal_head _ _ _ _ Htx Hs Ha) as (tk & r & -> & Hh & _).
+    destruct g as [|g]; [clear - Hg; cbn [length] in Hg; lia|]. rewrite <- app_assoc. cbn [app parr_loop length repeat].
+    rewrite (head_not_arrend tk Hh).
+    assert (Hlen : Nat.leb (length (done ++ zero e :: repeat (zero e) (length l))) (length done) = false).
+    { apply Nat.leb_gt. rewrite app_length. cbn [length]. clear. lia. }
+    rewrite Hlen, nth_app_here.
+    change (tk :: r ++ b ++ T KArrayEnd VNone :: rest) with ((tk :: r) ++ b ++ T KArrayEnd VNone :: rest).
+    rewrite upl_cons.
+    eapply pres_is_pbind; [apply (Hx e (tk :: r) _ _ Hwf Hs Hnr Htx Hnx Ha)|reflexivity|]. cbn [fst snd].
+    rewrite set_nth_app.
+    specialize (IH Htl Hnl b Hb g (done ++ [normal e x]) rest ltac:(clear - Hg; cbn [length] in Hg; lia)).
+    rewrite <- !app_assoc in IH. cbn [app] in IH.
+    replace (length (done ++ [normal e x])) with (S (length done)) in IH by (rewrite app_length; cbn [length]; clear; lia).
+    cbn [map]. exact IH.
+Qed.
+
+(* ---- struct fields ---- *)
+Hypothesis Hname : forall s cur rest' p,
+  pres_is (prec TString cur (T KString (VStr s) :: rest') p) (GStr s, rest') [(p, 24)].
+
+Lemma pstruct_loop_rt p : forall l, Forall pelem_ok l ->
+  forall fsall pre fs donev body, fsall = pre ++ fs -> names_nodup fsall = true ->
+  forallb (fun f => wf_bytesb (fname f) && wf_ty (snd f)) fs = true ->
+  forallb (fun f => simple_ty (snd f)) fs = true ->
+  forallb (fun f => noreg_ty (snd f)) fs = true ->
+  fields_typed l fs = true -> forallb no_ptr_to_nil l = true ->
+  mfields default_opts l fs = Ok body -> length donev = length pre ->
+  forall g depr rest, (length body < g)%nat ->
+  pres_is (pstruct_loop o prec p g fsall depr (donev ++ map (fun fd => zero (snd fd)) fs) (body ++ T KObjectEnd VNone :: rest))
+          (donev ++ nfields l fs, rest) (ups p l fs).
+Proof.
+  induction 1 as [|x l Hx _ IH]; intros fsall pre fs donev body Hall Hnd Hwf Hs Hnr Hty Hnp Hm Hlen g depr rest Hg.
+  - destruct fs as [|fd fs]; [|discriminate Hty]. injection Hm as <-.
+    destruct g as [|g]; [clear - Hg; cbn in Hg; lia|]. split; reflexivity.
+  - destruct fs as [|fd fs]; [discriminate Hty|].
+    change (fields_typed (x :: l) (fd :: fs)) with (has_type (snd fd) x && fields_typed l fs) in Hty.
+    apply andb_true_iff in Hty. destruct Hty as [Htx Htl].
+    cbn [forallb] in Hnp, Hwf, Hs, Hnr.
+    apply andb_true_iff in Hnp. destruct Hnp as [Hnx Hnl].
+    apply andb_true_iff in Hwf. destruct Hwf as [Hwx Hwl]. apply andb_true_iff in Hwx. destruct Hwx as [_ Hwx].
+    apply andb_true_iff in Hs. destruct Hs as [Hsx Hsl].
+    apply andb_true_iff in Hnr. destruct Hnr as [Hnrx Hnrl].
+    apply mfields_cons_inv in Hm.
+    assert (Hnext : forall y body' g', mfields default_opts l fs = Ok body' -> (length body' < g')%nat ->
+              pres_is (pstruct_loop o prec p g' fsall depr ((donev ++ [y]) ++ map (fun fd => zero (snd fd)) fs)
+                         (body' ++ T KObjectEnd VNone :: rest))
+                      ((donev ++ [y]) ++ nfields l fs, rest) (ups p l fs)).
+    { intros y body' g' Hb Hg'. apply (IH fsall (pre ++ [fd]) fs (donev ++ [y]) body'); try assumption.
+      - rewrite <- app_assoc. exact Hall.
+      - rewrite !app_length. cbn [length]. clear - Hlen. lia. }
+    change (nfields (x :: l) (fd :: fs)) with
+      ((if fexported fd then normal (snd fd) x else zero (snd fd)) :: nfields l fs).
+    rewrite ups_cons.
+    cbn [map].
+    destruct (fexported fd) eqn:Hex; cbn [negb].
+    + destruct Hm as (a & b & Ha & Hb & ->).
+      destruct g as [|g]; [clear - Hg; cbn [length] in Hg; lia|]. cbn [app pstruct_loop kind].
+      change (KString =? KObjectEnd) with false. cbn beta iota.
+      eapply pres_is_pbind; [apply Hname|reflexivity|]. cbn [fst snd].
+      subst fsall. rewrite (find_field_at pre fd fs 0 Hnd Hex). cbn [Nat.add].
+      rewrite <- Hlen, nth_app_here. rewrite <- app_assoc.
+      eapply pres_is_pbind; [apply (Hx (snd fd) a _ _ Hwx Hsx Hnrx Htx Hnx Ha)|reflexivity|]. cbn [fst snd].
+      rewrite set_nth_app.
+      specialize (Hnext (normal (snd fd) x) b g Hb ltac:(clear - Hg; cbn [length] in Hg; rewrite app_length in Hg; lia)).
+      rewrite <- !app_assoc in Hnext. cbn [app] in Hnext. exact Hnext.
+    + specialize (Hnext (zero (snd fd)) body g Hm ltac:(clear - Hg; cbn [length] in Hg; lia)).
+      rewrite <- !app_assoc in Hnext. cbn [app] in Hnext. exact Hnext.
+Qed.
+
+End PLoops.
+
+(* ---- the round trip with paths ---- *)
+Section PRoundTrip.
+Variable pf : bytes -> N -> option N.
+Variable o : copts.
+Variable R : registry.
+
+(* the result: by erasure from the round trip of the pure model *)
+Lemma unmp_rt_fst t v ts rest f p :
+  wf_ty t = true -> simple_ty t = true ->
+  has_type t v = true -> no_ptr_to_nil v = true ->
+  marshal default_opts t v = Ok ts -> (2 * vsize v < f)%nat ->
+  fst (unmp pf f o R t (zero t) (ts ++ rest) p) = POk (normal t v, rest).
+Proof.
+  intros Hwf Hs Hty Hnp Hm Hf. apply erase_ok. rewrite unmp_erase.
+  apply roundtrip_simple_fuel; assumption.
+Qed.
+
+Definition rtp_ok (v : gval) : Prop :=
+  forall t ts, wf_ty t = true -> simple_ty t = true -> noreg_ty t = true ->
+    has_type t v = true -> no_ptr_to_nil v = true -> marshal default_opts t v = Ok ts ->
+    forall f rest p, (2 * vsize v < f)%nat ->
+    log_paths (snd (unmp pf f o R t (zero t) (ts ++ rest) p)) = upaths t v p.
+
+Lemma rtp_elem_ok f l : Forall rtp_ok l -> (2 * lsize l < f)%nat -> Forall (pelem_ok (unmp pf f o R)) l.
+Proof.
+  induction 1 as [|x l Hx _ IH]; intros Hf; constructor.
+  - intros ft a rest' p Hwf Hs Hnr Ht Hn Hm. rewrite lsize_cons in Hf. split.
+    + apply unmp_rt_fst; try assumption. clear - Hf. lia.
+    + apply Hx; try assumption. clear - Hf. lia.
+  - apply IH. rewrite lsize_cons in Hf. clear - Hf. lia.
+Qed.
+
+Ltac pleaf Hnr Hm Hf Hut :=
+  rewrite (noreg_prefix _ Hnr) in Hm; injection Hm as <-;
+  match type of Hf with (_ < ?f)%nat => destruct f as [|f']; [clear - Hf; lia|] end;
+  cbn [app]; rewrite unmp_leaf_log; [reflexivity|reflexivity|rewrite Hut; discriminate].
+
+Theorem roundtrip_paths_all : forall v, rtp_ok v.
+Proof.
+  induction v as [b|z|n|b|b|s|n s|n l IH|n es|l IH| |x IH|d|r|e] using gval_ind2;
+    intros t ts Hwf Hs Hnr Hty Hnp Hm f rest p Hf;
+    pose proof (simple_underlying t Hs) as Hsu; pose proof (wf_underlying t Hwf) as Hwu;
+    pose proof (noreg_underlying t Hnr) as Hnu.
+  - (* bool *)
+    cbn [has_type] in Hty. destruct (underlying t) eqn:Hut; try discriminate.
+    cbn [marshal bind] in Hm. pleaf Hnr Hm Hf Hut.
+  - (* int *)
+    cbn [has_type marshal] in Hty, Hm. destruct (underlying t) eqn:Hut; try discriminate.
+    cbn [bind] in Hm. destruct w; pleaf Hnr Hm Hf Hut.
+  - (* uint / uintptr *)
+    cbn [has_type marshal] in Hty, Hm. destruct (underlying t) eqn:Hut; try discriminate;
+    cbn [bind] in Hm.
+    + destruct w; pleaf Hnr Hm Hf Hut.
+    + pleaf Hnr Hm Hf Hut.
+  - (* float32 *)
+    cbn [has_type] in Hty. destruct (underlying t) eqn:Hut; try discriminate.
+    cbn [marshal] in Hm. destruct (f32_is_nan b); cbn [bind] in Hm; pleaf Hnr Hm Hf Hut.
+  - (* float64 *)
+    cbn [has_type] in Hty. destruct (underlying t) eqn:Hut; try discriminate.
+    cbn [marshal] in Hm. destruct (f64_is_nan b); cbn [bind] in Hm; pleaf Hnr Hm Hf Hut.
+  - (* string *)
+    cbn [has_type] in Hty. destruct (underlying t) eqn:Hut; try discriminate.
+    cbn [marshal bind] in Hm. pleaf Hnr Hm Hf Hut.
+  - (* bytes / byte array *)
+    cbn [has_type] in Hty. destruct (underlying t) eqn:Hut; try discriminate;
+    cbn [marshal bind] in Hm; pleaf Hnr Hm Hf Hut.
+  - (* list: array or slice *)
+    rewrite has_type_list in Hty. rewrite marshal_list in Hm. rewrite upaths_list.
+    apply bind_ok in Hm. destruct Hm as (ts0 & Hm & Hts). rewrite (noreg_prefix t Hnr) in Hts. injection Hts as <-.
+    apply bind_ok in Hm. destruct Hm as (body & Hm & Hts). injection Hts as <-.
+    cbn [forallb no_ptr_to_nil] in Hnp. rewrite vsize_list in Hf.
+    destruct f as [|f']; [clear - Hf; lia|].
+    pose proof (rtp_elem_ok f' l IH ltac:(clear - Hf; lia)) as Hel.
+    unfold elem_ty in *.
+    destruct (underlying t) eqn:Hut; try discriminate.
+    + (* array *)
+      cbn [wf_ty simple_ty noreg_ty] in Hwu, Hsu, Hnu.
+      apply andb_true_iff in Hty. destruct Hty as [Hty Hall]. apply andb_true_iff in Hty. destruct Hty as [_ Hlen].
+      apply Nat.eqb_eq in Hlen.
+      cbn [app]. rewrite (unmp_array_step pf o R _ _ _ _ _ _ _ Hut).
+      rewrite zero_underlying, Hut. cbn [zero items_of_gval]. rewrite <- Hlen.
+      rewrite <- app_assoc. cbn [app].
+      pose proof (parr_loop_rt (unmp pf f' o R) _ p Hwu Hsu Hnu l Hel Hall Hnp body Hm
+                    (S (length (body ++ T KArrayEnd VNone :: rest))) [] rest) as Hloop.
+      cbn [app length] in Hloop.
+      assert (Hl : (length l < S (length (body ++ T KArrayEnd VNone :: rest)))%nat).
+      { pose proof (melems_length _ _ _ Hall Hsu Hm) as Hl. rewrite app_length. clear - Hl. lia. }
+      specialize (Hloop Hl).
+      exact (log_tap_bind_pok p KArray (rk_of t) _ (fun r => (GList false (fst r), snd r)) _ _ Hloop).
+    + (* slice *)
+      cbn [wf_ty simple_ty noreg_ty] in Hwu, Hsu, Hnu.
+      apply andb_true_iff in Hty. destruct Hty as [_ Hall].
+      cbn [app]. rewrite (unmp_slice_step pf o R _ _ _ _ _ _ Hut).
+      rewrite zero_underlying, Hut. cbn [zero items_of_gval is_nil_container].
+      rewrite <- app_assoc. cbn [app].
+      pose proof (pslice_loop_rt (unmp pf f' o R) _ p Hwu Hsu Hnu l Hel Hall Hnp body Hm
+                    (S (length (body ++ T KArrayEnd VNone :: rest))) [] rest) as Hloop.
+      cbn [app length] in Hloop.
+      assert (Hl : (length l < S (length (body ++ T KArrayEnd VNone :: rest)))%nat).
+      { pose proof (melems_length _ _ _ Hall Hsu Hm) as Hl. rewrite app_length. clear - Hl. lia. }
+      specialize (Hloop Hl).
+      exact (log_tap_bind_pok p KArray (rk_of t) _
+               (fun r => (GList (true && match fst r with [] => true | _ => false end) (fst r), snd r)) _ _ Hloop).
+  - (* map: excluded *)
+    cbn [has_type] in Hty. destruct (underlying t); discriminate.
+  - (* struct *)
+    rewrite has_type_struct in Hty. rewrite marshal_struct in Hm. rewrite upaths_struct.
+    apply bind_ok in Hm. destruct Hm as (ts0 & Hm & Hts). rewrite (noreg_prefix t Hnr) in Hts. injection Hts as <-.
+    apply bind_ok in Hm. destruct Hm as (body & Hm & Hts). injection Hts as <-.
+    cbn [no_ptr_to_nil] in Hnp. rewrite vsize_struct in Hf.
+    destruct f as [|f']; [clear - Hf; lia|].
+    pose proof (rtp_elem_ok f' l IH ltac:(clear - Hf; lia)) as Hel.
+    unfold fields_of in *.
+    destruct (underlying t) eqn:Hut; try discriminate.
+    rewrite wf_ty_struct in Hwu. apply andb_true_iff in Hwu. destruct Hwu as [Hwfs Hnd].
+    cbn [simple_ty noreg_ty] in Hsu, Hnu.
+    cbn [app]. rewrite (unmp_struct_step pf o R _ _ _ _ _ _ Hut).
+    rewrite zero_underlying, Hut. cbn [zero]. rewrite <- app_assoc. cbn [app].
+    assert (Hnm : forall s cur rest' p', pres_is (unmp pf f' o R TString cur (T KString (VStr s) :: rest') p')
+                                                 (GStr s, rest') [(p', 24)]).
+    { destruct f' as [|f'']; [clear - Hf; lia|]. intros. rewrite unmp_name. split; reflexivity. }
+    pose proof (pstruct_loop_rt o (unmp pf f' o R) Hnm p l Hel fs [] fs [] body eq_refl Hnd Hwfs Hsu Hnu Hty Hnp Hm eq_refl
+                  (S (length (body ++ T KObjectEnd VNone :: rest))) (depr_of t) rest) as Hloop.
+    cbn [app] in Hloop.
+    assert (Hl : (length body < S (length (body ++ T KObjectEnd VNone :: rest)))%nat).
+    { rewrite app_length. clear. lia. }
+    specialize (Hloop Hl).
+    exact (log_tap_bind_pok p KObject (rk_of t) _ (fun r => (GStruct (fst r), snd r)) _ _ Hloop).
+  - (* nil pointer *)
+    cbn [has_type] in Hty. destruct (underlying t) eqn:Hut; try discriminate.
+    cbn [marshal bind] in Hm. rewrite (noreg_prefix t Hnr) in Hm. injection Hm as <-.
+    destruct f as [|f']; [clear - Hf; lia|]. cbn [app].
+    rewrite unmp_nil_log by (rewrite Hut; discriminate). reflexivity.
+  - (* non-nil pointer *)
+    cbn [has_type] in Hty. destruct (underlying t) eqn:Hut; try discriminate.
+    rewrite marshal_ptr in Hm. rewrite upaths_ptr. unfold pointee_ty in *. rewrite Hut in *.
+    apply bind_ok in Hm. destruct Hm as (tsx & Hm & Hts). rewrite (noreg_prefix t Hnr) in Hts. injection Hts as <-.
+    cbn [wf_ty simple_ty noreg_ty] in Hwu, Hsu, Hnu.
+    assert (Hnx : no_ptr_to_nil x = true /\ x <> GPtr None).
+    { cbn [no_ptr_to_nil] in Hnp. destruct x as [| | | | | | | | | |[y|]| | |]; try (split; [exact Hnp|discriminate]).
+      discriminate Hnp. }
+    destruct Hnx as [Hnx Hxn].
+    destruct (marshal_head _ _ _ _ Hty Hsu Hm) as (tk & r & E & Hh & Hnil).
+    destruct (marshal_head_nr _ _ _ _ Hty Hsu Hnu Hm) as (tk' & r' & E' & Htn).
+    rewrite E in E'. injection E' as <- <-.
+    cbn [vsize] in Hf.
+    destruct f as [|f1]; [clear - Hf; lia|].
+    cbn [app]. rewrite E. cbn [app].
+    rewrite (unmp_ptr_step pf o R f1 t _ _ tk _ p Hut Hh Htn) by (intros Hk; apply Hxn, Hnil; assumption).
+    change (tk :: r ++ rest) with ((tk :: r) ++ rest). rewrite <- E.
+    assert (Hf1 : (2 * vsize x < f1)%nat) by (clear - Hf; lia).
+    assert (Hin : pres_is (unmp pf f1 o R t0 (zero t0) (tsx ++ rest) p) (normal t0 x, rest) (upaths t0 x p)).
+    { split; [apply unmp_rt_fst; assumption|apply IH; assumption]. }
+    exact (log_tap_bind_pok p (kind tk) (rk_of t) _ (fun r => (GPtr (Some (fst r)), snd r)) _ _ Hin).
+  - cbn [has_type] in Hty. destruct (underlying t); discriminate.
+  - cbn [has_type] in Hty. destruct (underlying t); discriminate.
+  - (* time *)
+    cbn [has_type] in Hty. destruct (underlying t) eqn:Hut; try discriminate.
+    cbn [marshal bind] in Hm. pleaf Hnr Hm Hf Hut.
+Qed.
+
+End PRoundTrip.
+
+Theorem unmp_roundtrip_paths : forall pf o R t v ts rest f p,
+  wf_ty t = true -> simple_ty t = true -> noreg_ty t = true ->
+  has_type t v = true -> no_ptr_to_nil v = true ->
+  marshal default_opts t v = Ok ts -> (2 * vsize v < f)%nat ->
+  fst (unmp pf f o R t (zero t) (ts ++ rest) p) = POk (normal t v, rest) /\
+  log_paths (snd (unmp pf f o R t (zero t) (ts ++ rest) p)) = upaths t v p.
+Proof.
+  intros pf o R t v ts rest f p Hwf Hs Hnr Hty Hnp Hm Hf. split.
+  - apply unmp_rt_fst; assumption.
+  - apply (roundtrip_paths_all pf o R v); assumption.
+Qed.
+
+(* ---- a concrete instance: a named struct with an exported and an unexported scalar field, a slice of
+   pointers to a struct (one of them nil), an array, a pointer to pointer, a named byte array, a time ---- *)
+Definition exInner : ty := TStruct [([88], true, TInt WNat); ([121], false, TString)].
+Definition exT : ty :=
+  TNamed [79] false []
+    (TStruct [([65], true, TInt W32);
+              ([98], false, TBool);
+              ([83], true, TSlice (TPtr exInner));
+              ([82], true, TArray 2 TString);
+              ([80], true, TPtr (TPtr TBool));
+              ([78], true, TNamed [75] false [] (TByteArray 2));
+              ([84], true, TTime)]).
+Definition exV : gval :=
+  GStruct [GInt 7;
+           GBool true;
+           GList false [GPtr (Some (GStruct [GInt 1; GStr [104]])); GPtr None];
+           GList false [GStr [97]; GStr []];
+           GPtr (Some (GPtr (Some (GBool true))));
+           GBytes false [1; 2];
+           GTime zero_time].
+Definition exTs : list token := match marshal default_opts exT exV with Ok ts => ts | _ => [] end.
+
+
+(* the hypotheses of [unmp_roundtrip_paths] hold of (exT, exV), for every parse-float oracle, options,
+   registry, continuation of the stream and context path *)
+Example unmp_roundtrip_paths_ex pf o R rest p :
+  marshal default_opts exT exV = Ok exTs /\
+  fst (unmp pf 100 o R exT (zero exT) (exTs ++ rest) p) = POk (normal exT exV, rest) /\
+  log_paths (snd (unmp pf 100 o R exT (zero exT) (exTs ++ rest) p)) = upaths exT exV p.
+Proof.
+  split; [vm_compute; reflexivity|].
+  apply unmp_roundtrip_paths; try (vm_compute; reflexivity). vm_compute. lia.
+Qed.
+
+(* and its conclusion, computed: under the context path ["r"] the callback sees the struct, each exported
+   field's name (read into a string, kind 24) under the struct's path and its value under path ++ [name],
+   slice and array elements under path ++ [index], pointees under the pointer's path; the unexported
+   fields are not visited *)
+Example unmp_roundtrip_paths_computed :
+  fst (unmp (fun _ _ => None) 100 default_opts [] exT (zero exT) (exTs ++ [T KBool (VBool true)]) [PStr [114]])
+    = POk (normal exT exV, [T KBool (VBool true)]) /\
+  log_paths (snd (unmp (fun _ _ => None) 100 default_opts [] exT (zero exT) (exTs ++ [T KBool (VBool true)]) [PStr [114]]))
+    = upaths exT exV [PStr [114]] /\
+  upaths exT exV [PStr [114]] =
+    [([PStr [114]], 25); ([PStr [114]], 24); ([PStr [114]; PStr [65]], 5);
+     ([PStr [114]], 24); ([PStr [114]; PStr [83]], 23);
+     ([PStr [114]; PStr [83]; PIdx 0], 22);
+     ([PStr [114]; PStr [83]; PIdx 0], 25);
+     ([PStr [114]; PStr [83]; PIdx 0], 24);
+     ([PStr [114]; PStr [83]; PIdx 0; PStr [88]], 2);
+     ([PStr [114]; PStr [83]; PIdx 1], 22); ([PStr [114]], 24);
+     ([PStr [114]; PStr [82]], 17); ([PStr [114]; PStr [82]; PIdx 0], 24);
+     ([PStr [114]; PStr [82]; PIdx 1], 24); ([PStr [114]], 24);
+     ([PStr [114]; PStr [80]], 22); ([PStr [114]; PStr [80]], 22);
+     ([PStr [114]; PStr [80]], 1); ([PStr [114]], 24);
+     ([PStr [114]; PStr [78]], 17); ([PStr [114]], 24);
+     ([PStr [114]; PStr [84]], 25)].
+Proof. split; [|split]; vm_compute; reflexivity. Qed.
+
+(* erasure, shifting and the first tap on the same instance *)
+Example unmp_erase_ex :
+  erase (unmp (fun _ _ => None) 100 default_opts [] exT (zero exT) exTs [PStr [114]])
+  = unm (fun _ _ => None) 100 default_opts [] exT (zero exT) exTs.
+Proof. apply unmp_erase. Qed.
+
+Example unmp_shift_ex :
+  snd (unmp (fun _ _ => None) 100 default_opts [] exT (zero exT) exTs ([PStr [114]] ++ [PIdx 3]))
+  = shift_log [PStr [114]] (snd (unmp (fun _ _ => None) 100 default_opts [] exT (zero exT) exTs [PIdx 3])).
+Proof. rewrite unmp_shift. reflexivity. Qed.
+
+(* an error path extends the context path: a string where field A's int32 is expected *)
+Example unmp_paths_extend_ex :
+  fst (unmp (fun _ _ => None) 100 default_opts [] exT (zero exT)
+         [T KObject VNone; T KString (VStr [65]); T KString (VStr [66])] [PStr [114]])
+  = PErr (EMismatch KString 5) [PStr [114]; PStr [65]].
+Proof. vm_compute. reflexivity. Qed.
+
+Print Assumptions unmp_erase.
+Print Assumptions unmp_shift.
+Print Assumptions unmp_paths_extend.
+Print Assumptions unmp_first_tap.
+Print Assumptions unmp_roundtrip_paths.
